@@ -1230,9 +1230,17 @@ def transform(fn, proceed, to_instrument=True, set_conformer=True):
     if "#WRAP" in glb:
         # If the function is a closure, we have created a function
         # called #WRAP that takes the closure variables as arguments
-        # and returns the function that interests us.
-        actual_fn = glb.pop("#WRAP")(
-            *[cell.cell_contents for cell in fn.__closure__]
+        # and returns the function that interests us. The new function
+        # shares the cells of the original one.
+        template = glb.pop("#WRAP")(*[None for _ in freevars])
+        cells = dict(zip(freevars, fn.__closure__))
+        actual_fn = types.FunctionType(
+            code=template.__code__,
+            globals=glb,
+            name=fname,
+            closure=tuple(
+                cells[name] for name in template.__code__.co_freevars
+            ),
         )
     else:
         actual_fn = glb[fname]
